@@ -57,6 +57,18 @@ class DirectCollocation(SamplingMethod):
         self.degree = degree
         self.tau = collocation_points(degree, scheme)
         [self.C, self.D, self.B] = collocation_coeff(self.tau)
+        # Quadrature weights of the collocation method: integrals of the Lagrange polynomials through the
+        # collocation points. collocation_coeff integrates the basis that also contains the start node and
+        # drops that node's weight, which is only harmless when it vanishes (not for a single Radau point,
+        # where integrals came out halved)
+        B = []
+        for j in range(degree):
+            p = np.poly1d([1])
+            for r in range(degree):
+                if r != j:
+                    p *= np.poly1d([1, -self.tau[r]]) / (self.tau[j] - self.tau[r])
+            B.append(np.polyint(p)(1.0))
+        self.B = hcat(B)
         self.clean()
 
     def clean(self):
